@@ -184,6 +184,12 @@ func runGossip(s *sim.Sim, o gopts) {
 			nd.tomb = map[string]bool{}
 			return
 		}
+		if nd.firstVal == nil {
+			nd.firstVal = map[string]int64{}
+			for id, e := range raw.Ingesters {
+				nd.firstVal[id] = e.Timestamp
+			}
+		}
 		now := time.Now()
 		// C04: no resurrection while the tombstone is retained; tombstones leave only after the retention
 		for id := range nd.tomb {
@@ -219,7 +225,15 @@ func runGossip(s *sim.Sim, o gopts) {
 			e := raw.Ingesters[id]
 			for i, t := range e.Tokens {
 				if i > 0 && e.Tokens[i-1] >= t {
-					s.Fail("tokens-not-sorted-distinct", "", "after %s: node %s stores %s with tokens %v", what, nd.name, id, e.Tokens)
+					// known finding: the value that creates a key on a node is stored as it came, without the
+					// normalisation every later merge applies (the entry is still the one of that first value)
+					key := ""
+					if ts, ok := nd.firstVal[id]; ok && ts == e.Timestamp {
+						key = "first-value-of-key"
+					}
+					if !s.Fail("tokens-not-sorted-distinct", key, "after %s: node %s stores %s with tokens %v", what, nd.name, id, e.Tokens) {
+						break
+					}
 				}
 				if e.State == ring.LEFT {
 					continue
@@ -279,6 +293,14 @@ func runGossip(s *sim.Sim, o gopts) {
 			}
 		}
 		sort.Slice(newTokens, func(i, j int) bool { return newTokens[i] < newTokens[j] })
+		if s.Prop == "C05" && len(newTokens) >= 2 && s.Chance(0.25, "messy-token-list") {
+			// a writer may hand over its tokens unsorted and with repetitions: what replicas store is sorted and duplicate-free
+			for i, j := 0, len(newTokens)-1; i < j; i, j = i+1, j-1 {
+				newTokens[i], newTokens[j] = newTokens[j], newTokens[i]
+			}
+			newTokens = append(newTokens, newTokens[0])
+			s.Probe("unsorted-duplicated-tokens-written-locally")
+		}
 		wr.busy = true
 		wr.ops++
 		inc := nd.incarnation
